@@ -1,5 +1,6 @@
 import KitProofs.Lemmas.Batcher
 import KitProofs.Lemmas.BatcherProgress
+import KitProofs.Lemmas.BatcherWedge
 import KitProofs.Props.C06
 /-!
 # C10 — batcher: last value per key once per quiet interval; departures never wedge it
@@ -235,6 +236,34 @@ theorem departure_never_wedges_close {cfg : Cfg} (hfix : cfg.fixed = true) (hcap
     (hd : Departed stalled s) :
     ∃ s', Steps (Batcher.lts cfg) (Allowed stalled) s s' ∧ s'.bc = .returned :=
   close_completes hfix hcap hr hb hd
+
+/-! ## the fan-out before the fix: the wedge -/
+
+/-- **wedge_witness**: in the model of the code as it was found (`fixed = false`: `execute` selects
+only on the subscriber's buffer and `closeCh`), for EVERY buffer capacity `c` (50 in the code) there
+is a reachable state in which
+* `execute` holds `b.lock`, blocked on the full buffer of the only subscriber;
+* that subscriber's context has ended and its forwarder waits for `b.lock`;
+* a `Subscribe` call waits for `b.lock`; `Close` has been called and waits in `queue.Close()`;
+  a later `Batch` value is due;
+and no internal step is enabled at any clock value: `execute`, the pending `Batch` delivery,
+`Subscribe` and `Close` never finish — `departure_never_wedges_*` are false for that fan-out.
+The state is reached by: Subscribe; `c` × {Batch; the clock reaches the due time; delivery into the
+buffer}; one more Batch/delivery (`execute` blocks); cancel; the forwarder leaves its loop;
+Subscribe; Batch; clock; Close. -/
+theorem wedge_witness (c : Nat) :
+    ∃ s : State, Reach (Batcher.lts (cfgOrig c)) s ∧ Wedged c s ∧ Departed (fun _ => True) s ∧
+      ∀ (t : Int) (l : Label), l.isInternal = true →
+        Batcher.step (cfgOrig c) { s with p := { s.p with now := t } } l = none := by
+  obtain ⟨s0, hr0, hf⟩ := filled c c (Nat.le_refl _)
+  obtain ⟨s, hrun, hw⟩ := wedge_from_full hf
+  refine ⟨s, reach_run hr0 hrun, hw, ?_, fun t l hl => wedged_stuck hw t l hl⟩
+  obtain ⟨u, hsubs, _, _, huc, _⟩ := hw.subs
+  intro i v hi _
+  rw [hsubs] at hi
+  cases i with
+  | zero => simp at hi; subst hi; exact huc
+  | succ i => simp at hi
 
 /-! ## non-vacuity -/
 
